@@ -21,6 +21,7 @@ PRE_STRENGTHENED = {
     "C10-r2-1": "the x+p mutation was only applied after signing (bytes are hashed into the ring message, so it was rejected for the wrong reason); the model prover now emits x+p before signing over an adversarial generator",
     "C09-r2-1": "rewind was only called with all optional outputs present; now every optional-output combination x creator/foreign nonce",
     "C09-r2-2": "no message block was ever chosen against the stream; now blocks crafted so that stream XOR message is n, n+1, 2^256-1",
+    "C20-r2-2": "the replaced compression function treated n_blocks == 0 as a no-op like the built-in one, so nothing differed; calls with zero blocks (outside the documented 'one or more') are now counted and reported",
     "C07-r2-2": "rewind was only called with all optional outputs present (C07 and C09); now also with none / value only / blind only and a foreign nonce",
 }
 rows = []
